@@ -55,3 +55,27 @@ Qed.
 (* a feature without its own case gets the default: an error *)
 Lemma mark_default_is_error_l : mark_default = MError.
 Proof. reflexivity. Qed.
+
+(* ---------- syntax introduced by esbuild's own rewrites ---------- *)
+
+(* the regenerated multiset of `!Has(compat.X)` gates is the committed one *)
+Lemma newer_syntax_gates_exact_l :
+  forallb (fun r : string * feature * Z => count_has_not (fst (fst r)) (snd (fst r)) =? snd r) expected_newer_syntax_gates = true
+  /\ total_has_not = fold_right (fun (r : string * feature * Z) acc => snd r + acc) 0 expected_newer_syntax_gates.
+Proof. vm_compute. split; reflexivity. Qed.
+
+(* every feature-introducing rewrite is guarded by a `!Has` gate on exactly the feature it
+   writes, in the function that performs it; and under every unsupported set U it therefore
+   writes only supported syntax *)
+Lemma minify_rewrites_guarded_l :
+  forallb (fun r : string * string * feature => 1 <=? count_has_not (snd (fst r)) (snd r)) introducing_rewrites = true.
+Proof. vm_compute. reflexivity. Qed.
+
+Lemma minify_introduces_only_supported_l (U : fset) r g :
+  In r introducing_rewrites -> In g (rewrite_writes U r) ->
+  U g = false /\ 1 <= count_has_not (snd (fst r)) (snd r).
+Proof.
+  intros Hr Hg. split.
+  - unfold rewrite_writes in Hg. destruct (U (snd r)) eqn:E; [destruct Hg|]. destruct Hg as [<-|[]]. exact E.
+  - pose proof minify_rewrites_guarded_l as H. rewrite forallb_forall in H. specialize (H r Hr). lia.
+Qed.
